@@ -23,9 +23,9 @@ theorem sendCore_eq (env : Env) (m : Msg) :
   · rfl
   · rcases h : encodeSeq m c with ⟨r, c1, e1⟩
     cases r with
-    | error ex => rw [M.bind_apply_error h, M.bind_apply_error h]
+    | error ex => rw [M.bind_err h, M.bind_err h]
     | ok seq =>
-      rw [M.bind_apply_ok h, M.bind_apply_ok h]
+      rw [M.bind_ok h, M.bind_ok h]
       simp only [M.get_bind_apply, M.ite_apply]
       split
       · rfl
